@@ -278,6 +278,9 @@ def sk_sankey(tier):
     for g in ("chain_mixed_dims", "parallel_and_opposing", "with_stock", "self_loop", "no_stocks_scalar_flows", "inner_ring_mixed_dims"):
         for opt in ("default", "exclude_flow", "exclude_process", "slice_item", "slice_item_by_name", "split_by_dim"):
             out.append({"graph": g, "opt": opt, "table": "as_listed"})
+    # settings that must be refused
+    for opt in ("refuse_unknown_process", "refuse_unknown_flow", "refuse_slice_unknown_dim", "refuse_no_default_colour", "refuse_colour_dim_not_in_flow", "refuse_colour_list_too_short"):
+        out.append({"graph": "chain_mixed_dims", "opt": opt, "table": "as_listed"})
     # process table in another order than the ids (ids are not positions)
     for opt in ("default", "exclude_process", "slice_item"):
         out.append({"graph": "inner_ring_mixed_dims", "opt": opt, "table": "permuted"})
@@ -332,6 +335,22 @@ def u_sankey(W, sk):
     elif opt == "split_by_dim":
         # flows that have 'e' are split by a 2-item element dimension: rebuild 'e' as a concrete dimension
         return _sankey_split(W, sk)
+    elif opt.startswith("refuse_"):
+        inner = next(fl for fl, a, b in S.flow_list if a != "sysenv" and b != "sysenv")
+        missing_dim = next(d for d in S.D.values() if d.letter not in [x.letter for x in inner.dims.dim_list])
+        bad = {
+            "refuse_unknown_process": {"exclude_processes": ["sysenv", "no such process"]},
+            "refuse_unknown_flow": {"exclude_flows": ["no such flow"]},
+            "refuse_slice_unknown_dim": {"slice_dict": {"x": "whatever"}},
+            "refuse_no_default_colour": {"flow_color_dict": {inner.name: "red"}},
+            "refuse_colour_dim_not_in_flow": {"flow_color_dict": {"default": "gray", inner.name: (missing_dim.name, ["red", "blue", "green", "black"])}},
+            "refuse_colour_list_too_short": {"flow_color_dict": {"default": "gray", inner.name: (inner.dims.dim_list[0].name, [])}},
+        }[opt]
+        snaps = SL.snapshot(W, S.arrays())
+        out = W.call(lambda: sk_mod.PlotlySankeyPlotter(mfa=mfa, **bad))
+        SL.check_raises(W, f"sankey.{opt[7:]}", out, ValueError)
+        SL.check_unchanged(W, "sankey", snaps)
+        return
     snaps = SL.snapshot(W, S.arrays())
     rec = Recorder()
     out = W.call(lambda: sk_mod.PlotlySankeyPlotter(mfa=mfa, **kw))
@@ -580,9 +599,11 @@ def u_plotter(W, sk):
     "plotter.figures_hold_the_lines.bounded",
     props=["C20"],
     targets=["flodym.export.array_plotter.PlotlyArrayPlotter.add_line", "flodym.export.array_plotter.PyplotArrayPlotter.add_line", "flodym.export.array_plotter.ArrayPlotter.plot"],
-    skeletons=lambda tier: [{"lib": l, "naming": nm, "x": x} for l in ("plotly", "pyplot") for nm in ("names", "letters") for x in ("default", "x_array_permuted")],
+    skeletons=lambda tier: [{"lib": l, "naming": nm, "x": x, "chart": "line"} for l in ("plotly", "pyplot") for nm in ("names", "letters") for x in ("default", "x_array_permuted")]
+    + [{"lib": l, "naming": "names", "x": x, "chart": c} for l in ("plotly", "pyplot") for x in ("default", "x_array_permuted") for c in (("scatter", "area") if l == "plotly" else ("scatter",))]
+    + [{"lib": l, "naming": "letters", "x": "default", "chart": "line", "second_array": True} for l in ("plotly", "pyplot")],
     mode="bounded",
-    note="real plotly / matplotlib figures: for every subplot item and line item there is a line whose y-data are the array entries and whose x-data are the items or the matching x_array entries",
+    note="chart types line / scatter (plotly: also area), titles, labels, colour maps and suppressed legends set at random; optionally a second array drawn into the figure of the first; real plotly / matplotlib figures: for every subplot item and line item there is a line whose y-data are the array entries and whose x-data are the items or the matching x_array entries",
 )
 def u_plotter_fig(W, sk):
     import numpy as np
@@ -611,26 +632,67 @@ def u_plotter_fig(W, sk):
         xa = FlodymArray(dims=DimensionSet(dim_list=xo), values=xv, name="xv")
         kw["x_array"] = xa
     cls = ap.PlotlyArrayPlotter if sk["lib"] == "plotly" else ap.PyplotArrayPlotter
+    chart = sk.get("chart", "line")
+    kw["chart_type"] = chart
+    if rng.random() < 0.5:
+        kw["title"] = "a title"
+    if rng.random() < 0.5:
+        kw["xlabel"], kw["ylabel"] = "x label", "y label"
+    if rng.random() < 0.3:
+        kw["suppress_legend"] = True
+    if rng.random() < 0.3:
+        kw["color_map"] = ["red", "green", "blue", "black", "orange", "purple", "brown"]
+    W.inputs["options"] = {k: str(v) for k, v in kw.items() if k not in ("array", "x_array")}
     out = W.call(lambda: cls(**kw).plot())
     W.prove("plot.returns", out.kind == "return", detail=repr(out))
     if out.kind != "return":
         return
     fig = out.value
+    arr2 = None
+    if sk.get("second_array"):
+        # a second array over the same dimensions drawn into the same figure: its lines are added, the first ones stay
+        arr2 = FlodymArray(dims=arr.dims, values=vals * 2.0 + 1.0, name="y2")
+        kw2 = dict(kw, array=arr2, fig=fig)
+        out2 = W.call(lambda: cls(**kw2).plot())
+        W.prove("plot.second_array.returns", out2.kind == "return", detail=repr(out2))
+        if out2.kind != "return":
+            return
+        fig = out2.value
     lines = []
     if sk["lib"] == "plotly":
         for tr in fig.data:
             lines.append((list(tr.x), list(tr.y), tr.name))
     else:
         for ax in fig.axes:
-            for ln in ax.get_lines():
-                lines.append((list(ln.get_xdata()), list(ln.get_ydata()), ln.get_label()))
+            if chart == "scatter":
+                for pc in ax.collections:
+                    off = pc.get_offsets()
+                    lines.append(([float(p[0]) for p in off], [float(p[1]) for p in off], pc.get_label()))
+            else:
+                for ln in ax.get_lines():
+                    lines.append((list(ln.get_xdata()), list(ln.get_ydata()), ln.get_label()))
         plt.close(fig)
-    want = []
-    for s in S_.items:
-        for r in R.items:
-            y = [float(arr[{"s": s, "r": r}].values[arr[{"s": s, "r": r}].dims.index("t") * 0 + k]) if False else float(arr[{"s": s, "r": r, "t": t}].values) for k, t in enumerate(T.items)]
-            x = [float(t) for t in T.items] if xa is None else [float(xa[{"r": r, "t": t}].values) for t in T.items]
-            want.append((x, y, r))
+    suppressed = kw.get("suppress_legend", False) and sk["lib"] == "pyplot"
+
+    def wanted(a):
+        out_ = []
+        for s in S_.items:
+            for r in R.items:
+                y = [float(a[{"s": s, "r": r, "t": t}].values) for t in T.items]
+                x = [float(t) for t in T.items] if xa is None else [float(xa[{"r": r, "t": t}].values) for t in T.items]
+                out_.append((x, y, r))
+        return out_
+
+    want = wanted(arr)
+    if arr2 is not None:
+        # per subplot: first the lines of the first array, then those of the second (pyplot: axes by axes;
+        # plotly: traces in drawing order) -- compare as multisets per (x, y) to stay independent of that order
+        want = want + wanted(arr2)
+        key = lambda t: (tuple(t[0]), tuple(t[1]), t[2])
+        lines, want = sorted(lines, key=key), sorted(want, key=key)
+    if suppressed:
+        lines = [(x, y, None) for x, y, _ in lines]
+        want = [(x, y, None) for x, y, _ in want]
     W.prove("figure.one_line_per_subplot_item_and_line_item", len(lines) == len(want), detail=f"{len(lines)} vs {len(want)}")
     if len(lines) == len(want):
         W.prove("figure.lines_carry_the_entries_under_their_labels", all([float(a) for a in lx] == wx and [float(a) for a in ly] == wy and ln == wn for (lx, ly, ln), (wx, wy, wn) in zip(lines, want)), detail=str(lines[:1]) + " want " + str(want[:1]))
